@@ -987,3 +987,27 @@ def m_syncmap_delete(ex, st, args, ins, fn):
         ent.append((kk, vv))
     st.ghost[k] = tuple(ent)
     return None
+
+
+# ---------------------------------------------------------------- sync.Pool (LIFO free list per pool object: the
+# single-goroutine behaviour of the real pool, and the one under which buffer reuse is visible)
+@model('(*sync.Pool).Get')
+def m_pool_get(ex, st, args, ins, fn):
+    k = ('syncpool', args[0].cell, args[0].path)
+    items = st.ghost.get(k, ())
+    if items:
+        st.ghost[k] = items[:-1]
+        return items[-1]
+    newf = ex.load(st, args[0])[-1]      # the New field is the last one of sync.Pool
+    if newf is None:
+        return None
+    return Redirect(newf, [])
+
+
+@model('(*sync.Pool).Put')
+def m_pool_put(ex, st, args, ins, fn):
+    if args[1] is None:
+        return None
+    k = ('syncpool', args[0].cell, args[0].path)
+    st.ghost[k] = st.ghost.get(k, ()) + (args[1],)
+    return None
